@@ -213,8 +213,10 @@ def matrix_prod(mat, states, inplace=False):
 
     if inplace:
         try:
+            # the state axis is a core dimension here: only batch axes are inserted
+            bmat = mat[(...,) + (NAX,) * (ndim - 1) + (SL, SL)] if ndim > 1 else mat[..., 0, :, :]
             return xp.matmul(
-                mat, states, axes=[(-2, -1), (-1, -2), (-1, -2)], out=states
+                bmat, states, axes=[(-2, -1), (-1, -2), (-1, -2)], out=states
             )
         except ValueError:
             pass  # inplace not feasible
